@@ -18,7 +18,7 @@ EXPLANATION = "Theorems in Properties/C03.v + correspondence by certified langua
 
 
 def generate(ctx):
-    n = 360 if ctx.tier == "quick" else 5000
+    n = 900 if ctx.tier == "quick" else 10000
     cases = []
     rng = ctx.rng
     for i in range(n):
